@@ -77,7 +77,7 @@ def build_harness(ctx=None):
     env = dict(os.environ)
     env["CARGO_NET_OFFLINE"] = "true"
     p = subprocess.run(
-        ["cargo", "build", "--release", "--offline"],
+        ["cargo", "build", "--release", "--offline", "--bins"],
         cwd=HARNESS, env=env, stdout=subprocess.PIPE, stderr=subprocess.STDOUT, text=True,
     )
     if p.returncode != 0:
@@ -88,7 +88,7 @@ def build_harness(ctx=None):
         ctx.log(f"harness built in {time.time()-t:.1f}s")
 
 
-def vh(ctx, args, stdin=None, timeout=3600, check=True, env_extra=None):
+def vh(ctx, args, stdin=None, timeout=3600, check=True, env_extra=None, bin="vh"):
     """Run the harness binary; returns stdout text. Non-zero exit is a tool error
     (the harness reports disagreements as data, never via exit status)."""
     build_harness(ctx)
@@ -99,7 +99,7 @@ def vh(ctx, args, stdin=None, timeout=3600, check=True, env_extra=None):
         env.update(env_extra)
     t = time.time()
     try:
-        p = subprocess.run([str(VH)] + [str(a) for a in args], input=stdin, cwd=ROOT, env=env,
+        p = subprocess.run([str(VH.parent / bin)] + [str(a) for a in args], input=stdin, cwd=ROOT, env=env,
                            stdout=subprocess.PIPE, stderr=subprocess.PIPE, text=True, timeout=timeout)
     except subprocess.TimeoutExpired:
         raise ToolError(f"harness timeout: vh {' '.join(map(str, args))}")
